@@ -96,6 +96,8 @@ def gen(g, tier):
     if cfg["tick"] < 1 and cfg["initial"]["offset"] == "stale" and cfg["initial"]["doc"] in ("truncated", "garbage") and cfg["declare_uncompressed"]:
         # (only where the wrong-sized file is certain to be replaced: next to a file that stays, a newer table is simply its table)
         cfg["initial"]["offset"] = "stale-recent"
+    if cfg["initial"]["offset"] == "stale" and cfg["initial"]["doc"] in ("truncated", "garbage") and cfg["declare_uncompressed"] and cfg["initial"]["archive"] == "correct" and g.coin(0.5):
+        cfg["initial"]["offset"] = "stale-mid"
     n_inc = g.pick([1, 1, 2, 2, 3])
     for i in range(n_inc):
         last = i == n_inc - 1
@@ -341,6 +343,9 @@ class CorpusHarness(Harness):
                     put(table_path, real_table.encode(), 600_000)
                 elif init["offset"] == "stale":
                     put(table_path, b"50000;17\n", 100_000)  # older than the data file: must be rebuilt
+                elif init["offset"] == "stale-mid":
+                    # a table of an earlier version of the file: newer than the archive on disk, older than anything this run produces
+                    put(table_path, b"50000;17\n", 450_000)
                 elif init["offset"] == "stale-recent":
                     # a table of an earlier version of the file, written a fraction of a second before the file is replaced in this run
                     put(table_path, b"50000;17\n", 1_000_000.0)
